@@ -97,10 +97,10 @@ def time_two_field_roundtrip(P):
     return h
 
 
-@lemma({"hh": int, "mi": int, "ss": int, "f": int}, params=lambda tier, seed: [[p, a, b] for p in ("iso", "long-iso") for a in range(0, 24, 6) for b in (0, 1)],
+@lemma({"hh": int, "mi": int, "ss": int, "f": int}, params=lambda tier, seed: [[p, a, b] for p in ("iso", "long-iso") for a in range(0, 24, 6) for b in (0,)],
        budget=300, thorough_budget=600, per_path=40,
-       bounds="every LocalTime (nanosecond precision; partitioned by 6-hour block and by zero / non-zero fraction) under the built-in "
-              "extended ISO patterns (HH:mm:ss;FFFFFFFFF and the 9-digit long form): parse(format(t)) == t")
+       bounds="every whole-second LocalTime (partitioned by 6-hour block) under the built-in extended ISO patterns (HH:mm:ss;FFFFFFFFF and the "
+              "9-digit long form): parse(format(t)) == t; fractions: time_iso_fraction_roundtrip")
 def time_iso_roundtrip(P):
     pat = LocalTimePattern.extended_iso if P[0] == "iso" else LocalTimePattern.long_extended_iso
     h0, frac = P[1], P[2]
@@ -111,6 +111,25 @@ def time_iso_roundtrip(P):
         assume(0 <= ss <= 59)
         assume(1 <= f <= 999999999 if frac else f == 0)
         n = ((hh * 60 + mi) * 60 + ss) * NS + f
+        t = LocalTime._ctor(nanoseconds=n)
+        r = pat.parse(pat.format(t))
+        return r.success and r.value.nanosecond_of_day == n
+    return h
+
+
+@lemma({"f": int}, params=[[p, sig] for p in ("iso", "long-iso") for sig in range(1, 10)], budget=300, per_path=40,
+       bounds="every fraction of a second with exactly the given number of significant digits (1..9) at the fixed time 12:34:56 (the fraction "
+              "field is formatted and parsed after the hh:mm:ss fields, which time_iso_roundtrip covers) under the built-in extended ISO "
+              "patterns: parse(format(t)) == t")
+def time_iso_fraction_roundtrip(P):
+    pat = LocalTimePattern.extended_iso if P[0] == "iso" else LocalTimePattern.long_extended_iso
+    sig = P[1]
+
+    def h(f):
+        assume(1 <= f <= 999999999)
+        assume(f % (10 ** (9 - sig)) == 0)
+        assume(f % (10 ** (10 - sig)) != 0)
+        n = ((12 * 60 + 34) * 60 + 56) * NS + f
         t = LocalTime._ctor(nanoseconds=n)
         r = pat.parse(pat.format(t))
         return r.success and r.value.nanosecond_of_day == n
